@@ -604,4 +604,5 @@ func main() {
 	genConfig(repo, out)
 	genFlags(repo, out)
 	genConsts(repo, out)
+	genSync(repo, out)
 }
